@@ -106,10 +106,11 @@ def main() -> int:
                 v = op["value"]
                 b.config.spin_alignment = NoAlignment() if v == "none" else AxisAngleAlignment() if v == "axisangle" else DalitzPlotDecomposition(int(v[3]))
         elif kind == "naming":
-            b.naming.insert_parent_helicities = op["parent"]
-            b.naming.insert_child_helicities = op["child"]
-            if hasattr(b.naming, "insert_ls_combinations"):
-                b.naming.insert_ls_combinations = op["ls"]
+            order = op.get("order") or [["parent", op["parent"]], ["child", op["child"]], ["ls", op["ls"]]]
+            for flag, value in order:
+                attr = {"parent": "insert_parent_helicities", "child": "insert_child_helicities", "ls": "insert_ls_combinations"}[flag]
+                if hasattr(b.naming, attr):
+                    setattr(b.naming, attr, value)
         elif kind == "assign":
             C.apply_config(b, reaction, {**_base_cfg(b), "dynamics": [{"select": op["select"], "target": op["target"], "builder": op["kind"]}]})
         elif kind == "permutate":
